@@ -74,7 +74,8 @@ def run(check, tier):
     from ..common import ROOT
     sys.path.insert(0, str(ROOT / "harness"))
     import ser_common as sc
-    jobs = [dict(fn="rt_scalars__reach", timeout=30), dict(fn="rt_graph__reach", timeout=60)]
+    jobs = [dict(fn="rt_scalars__reach", timeout=30), dict(fn="rt_graph__reach", timeout=60),
+            dict(fn="overwrite_history", timeout=t * 2, key="overwrite_history")]
     for k0 in range(N_SCALAR):
         jobs.append(dict(fn="rt_scalars", fixed=dict(k0=k0), timeout=t, key="scalars"))
     for depth in (1, 2, 3):
